@@ -27,13 +27,12 @@ Ltac nat_bools :=
          | H : Nat.ltb _ _ = false |- _ => apply Nat.ltb_ge in H
          end.
 
+(* case analysis on the comparisons in the goal only *)
 Ltac bool_cases :=
   repeat match goal with
          | |- context [Nat.eqb ?a ?b] => destruct (Nat.eqb a b) eqn:?
          | |- context [Nat.ltb ?a ?b] => destruct (Nat.ltb a b) eqn:?
-         | H : context [Nat.eqb ?a ?b] |- _ => destruct (Nat.eqb a b) eqn:?
-         | H : context [Nat.ltb ?a ?b] |- _ => destruct (Nat.ltb a b) eqn:?
-         end; nat_bools; try lia.
+         end; intros; nat_bools; try lia.
 
 Lemma ID_init c : ID (init c).
 Proof.
@@ -47,7 +46,7 @@ Ltac id_plain s t D Hpc :=
   pose proof Hpc as Hg; unfold pcof in Hg;
   intros o0; specialize (D o0); unfold cnt, born in *; sp;
   rewrite ?(sum_upd PNone) by reflexivity; rewrite ?Hg; cbn [holds occ] in *;
-  bool_cases.
+  revert D; bool_cases.
 
 Ltac id_sem s t G D Hpc :=
   let o0 := fresh "o0" in let Hg := fresh "Hg" in let Hg' := fresh "Hg'" in
@@ -58,7 +57,7 @@ Ltac id_sem s t G D Hpc :=
   intros o0; specialize (D o0); unfold cnt, born in *; sp; autorewrite with fld;
   rewrite ?(sum_upd PNone) by reflexivity; rewrite ?Hg';
   rewrite (sem_add_blind (holds o0) s (blind_holds o0) G); cbn [holds occ] in *;
-  bool_cases.
+  revert D; bool_cases.
 
 Ltac id_ssem s t S D Hpc :=
   let o0 := fresh "o0" in let Hg := fresh "Hg" in let Hg' := fresh "Hg'" in
@@ -69,7 +68,7 @@ Ltac id_ssem s t S D Hpc :=
   intros o0; specialize (D o0); unfold cnt, born in *; sp; autorewrite with fld;
   rewrite ?(sum_upd PNone) by reflexivity; rewrite ?Hg';
   rewrite (ssem_add_blind (holds o0) s (sblind_holds o0) S); cbn [holds occ] in *;
-  bool_cases.
+  revert D; bool_cases.
 
 Ltac id_clear s t D Hpc :=
   let o0 := fresh "o0" in let Hg := fresh "Hg" in
@@ -82,7 +81,7 @@ Ltac id_clear s t D Hpc :=
   intros o0; specialize (D o0); unfold cnt, born in *; sp;
   rewrite ?F7, ?F10, ?F11, ?F12, ?F13, ?F14, ?F15;
   rewrite ?(sum_upd PNone) by reflexivity; rewrite ?Hg; rewrite ?occ_app; cbn [holds occ] in *;
-  bool_cases.
+  revert D; bool_cases.
 
 Theorem ID_step c s l s' : GQ s -> SQ s -> ID s -> step c s l = Some s' -> ID s'.
 Proof.
@@ -119,7 +118,9 @@ Proof.
       * id_plain s t D Hpc.
     + destruct e; inversion H; subst; unfold acquire, fail_get;
         [destruct (closed s); [|destruct (Z.ltb 0 (permits s))]..|]; id_plain s t D Hpc.
-    + destruct (closed s); [|destruct a]; inversion H; subst; try exact D; destruct a; id_plain s t D Hpc.
+    + destruct (closed s).
+      * inversion H; subst. destruct a; id_plain s t D Hpc.
+      * destruct a; inversion H; subst; [id_plain s t D Hpc|exact D].
     + destruct (vec s) as [|o l] eqn:Ev; inversion H; subst.
       * id_plain s t D Hpc.
       * pose proof Hpc as Hg; unfold pcof in Hg.
@@ -139,8 +140,9 @@ Proof.
     + inversion H; subst. id_clear s t D Hpc.
     + unfold hand_back in H. destruct (sclosed s); [|destruct (Z.ltb 0 (spermits s)); [|destruct b]];
         inversion H; subst; id_plain s t D Hpc.
-    + unfold hand_back in H. destruct (sclosed s); [|destruct a]; inversion H; subst; try exact D;
-        destruct a; id_plain s t D Hpc.
+    + unfold hand_back in H. destruct (sclosed s).
+      * inversion H; subst. destruct a; id_plain s t D Hpc.
+      * destruct a; inversion H; subst; [id_plain s t D Hpc|exact D].
     + unfold hand_back in H. destruct (closed s); inversion H; subst; id_plain s t D Hpc.
     + inversion H; subst. id_plain s t D Hpc.
     + inversion H; subst. id_sem s t G D Hpc.
